@@ -192,7 +192,7 @@ class DepthDataNative(Contract):
     bounded_scope = ("sequences of 1-4 add_data calls mixing depth logs and interval logs on one hole (unsorted, repeated, nearly equal depths; identical, nested, overlapping, "
                      "contiguous and disjoint intervals; logs added together or one by one): after every call each vertex with a depth sits at the reference position of that depth, "
                      "each interval cell joins the positions of its from and to depths, each distinct interval is listed once and every value stays attached to its depth or interval "
-                     "(24 fixed sequences, 4 with nearly equal depths merged under an explicit collocation distance, + 40 seeded in the quick tier, 600 in the thorough tier)")
+                     "(28 fixed sequences, 4 mixing interval and depth logs in one call, 4 with nearly equal depths merged under an explicit collocation distance, + 40 seeded in the quick tier, 600 in the thorough tier)")
 
     D = lambda name, depths: ("depth", name, depths)
     I_ = lambda name, ft: ("interval", name, ft)
@@ -227,6 +227,13 @@ class DepthDataNative(Contract):
         ]
         for steps in near:
             yield {"steps": steps, "together": False, "collocation_distance": 0.5}
+        # interval and depth logs given in one add_data call (either order) on a hole that already has depths
+        for first in ("interval", "depth"):
+            mixed = [("interval", "i", [[5.0, 15.0], [15.0, 25.0]]), ("depth", "b", [12.0, 40.0])]
+            if first == "depth":
+                mixed.reverse()
+            yield {"steps": [("depth", "a", [10.0, 20.0, 30.0]), ("mixed", "m", mixed)], "together": False}
+            yield {"steps": [("interval", "z", [[50.0, 55.0]]), ("depth", "a", [10.0, 30.0]), ("mixed", "m", mixed), ("depth", "c", [11.0])], "together": False}
         grid = [0.0, 5.0, 10.0, 15.0, 20.0, 30.0, 60.0, 65.0, 70.0]
         for _ in range(40 if tier == "quick" else 600):
             steps = []
@@ -294,30 +301,43 @@ class DepthDataNative(Contract):
             dh = Drillhole.create(ws, collar=np.array(collar), surveys=sv)
             written_d, written_i = {}, {}
             specs = []
-            for k, (kind, name, arg) in enumerate(steps):
+            flat = []
+            for kind, name, arg in steps:
+                flat.extend([(k2, n2, a2, name) for k2, n2, a2 in arg] if kind == "mixed" else [(kind, name, arg, None)])
+            for k, (kind, name, arg, call) in enumerate(flat):
                 if kind == "depth":
                     uniq = list(dict.fromkeys(arg))
                     vals = np.array([1000.0 * (k + 1) + d for d in uniq])
                     written_d[name] = dict(zip(uniq, vals))
-                    specs.append((kind, {name: {"depth": np.array(uniq), "values": vals}}))
+                    specs.append((kind, {name: {"depth": np.array(uniq), "values": vals}}, call))
                 else:
                     uniq = list(dict.fromkeys(tuple(x) for x in arg))
                     vals = np.array([1000.0 * (k + 1) + a + b / 100.0 for a, b in uniq])
                     written_i[name] = {x: v for x, v in zip(uniq, vals)}
-                    specs.append((kind, {name: {"from-to": np.array([list(x) for x in uniq]), "values": vals}}))
-            kinds = {k for k, _ in specs}
+                    specs.append((kind, {name: {"from-to": np.array([list(x) for x in uniq]), "values": vals}}, call))
+            kinds = {k for k, _, _ in specs}
             if case.get("together") and len(kinds) == 1:
                 merged = {}
-                for _, sp in specs:
+                for _, sp, _ in specs:
                     merged.update(sp)
                 dh.add_data(merged)
                 return self._check(dh, collar, sv, written_d, written_i, case, "after one add_data call")
             done_d, done_i = {}, {}
             ckw = {"collocation_distance": case["collocation_distance"]} if case.get("collocation_distance") else {}
-            for n_, (kind, sp) in enumerate(specs):
-                dh.add_data(sp, **ckw)
-                name = next(iter(sp))
-                (done_d if kind == "depth" else done_i)[name] = (written_d if kind == "depth" else written_i)[name]
+            # consecutive specs that belong to one "mixed" step go into a single add_data call, in their order
+            calls = []
+            for kind, sp, call in specs:
+                if call is not None and calls and calls[-1][0] == call:
+                    calls[-1][1].append((kind, sp))
+                else:
+                    calls.append((call, [(kind, sp)]))
+            for n_, (_, group) in enumerate(calls):
+                payload = {}
+                for kind, sp in group:
+                    payload.update(sp)
+                    name = next(iter(sp))
+                    (done_d if kind == "depth" else done_i)[name] = (written_d if kind == "depth" else written_i)[name]
+                dh.add_data(payload, **ckw)
                 bad = self._check(dh, collar, sv, done_d, done_i, case, f"after call {n_ + 1}")
                 if bad:
                     return bad
